@@ -20,6 +20,13 @@ def _add(c):
     return c
 
 
+def _conc(v, lo, hi):
+    for k in range(lo, hi + 1):
+        if v == k:
+            return k
+    raise AssertionError('out of range')
+
+
 def distinct(labels):
     for i in range(len(labels)):
         for j in range(i + 1, len(labels)):
@@ -81,6 +88,12 @@ _add(mk_index(4, False)).tier = 'thorough'
 def mk_go_history(auto, read0, read1, tier='quick'):
     def body(env, a, b, afloat=False, c=55, probe=99):
         from vf import rt
+        lo, hi = ((-1, 4) if auto else (9, 56))
+        a, b, afloat = _conc(a, lo, 21 if not auto else hi), _conc(b, lo, hi), bool(afloat)   # extend() hashes labels: split by value, run concretely
+        return rt.untraced(lambda: run(env, a, b, afloat, c, probe))
+
+    def run(env, a, b, afloat, c, probe):
+        from vf import rt
         sf = env.sf
         if auto:
             idx = rt.untraced(lambda: sf.IndexGO(range(2), loc_is_iloc=True))
@@ -105,18 +118,16 @@ def mk_go_history(auto, read0, read1, tier='quick'):
                 ok = True
             except KeyError:
                 ok = False
-            # reference: an append of a held label is rejected; an extend stops at the first duplicate
+            # reference: an append of a held label is rejected; an extend is all-or-nothing
             if kind == 'append':
                 ref_ok = v not in labels
                 if ref_ok:
                     labels.append(v)
             else:
-                ref_ok = True
-                for x in v:
-                    if x in labels:
-                        ref_ok = False
-                        break
-                    labels.append(x)
+                # all-or-nothing: any label already held, or repeated inside the call, rejects the whole call
+                ref_ok = all(x not in labels for x in v) and all(v[i] != v[j] for i in range(len(v)) for j in range(i + 1, len(v)))
+                if ref_ok:
+                    labels.extend(v)
             trace.append(ok)
             exp.append(ref_ok)
             trace.append(view(env, idx, labels, probe))
@@ -124,8 +135,9 @@ def mk_go_history(auto, read0, read1, tier='quick'):
         return trace, exp
     return Cond(f'indexgo_history_{"auto" if auto else "labels"}_r{int(read0)}{int(read1)}',
             [('a', 'int'), ('b', 'int')] + ([('afloat', 'bool')] if auto else []), body, tier=tier,
+            ranges=({'a': (-1, 4), 'b': (-1, 4)} if auto else {'a': (9, 21), 'b': (9, 56)}),   # extend() hashes its labels (set): bounded
             functions=['_IndexGOMixin.append', '_IndexGOMixin.extend', '_IndexGOMixin._update_array_cache', 'Index._loc_to_iloc'],
-            bounds=('IndexGO of 2 labels (' + ('auto-integer, map-less' if auto else 'explicit') + '); history append(a), extend([b, 55]) with a, b UNBOUNDED symbolic ints (absent probe 99 fixed); '
+            bounds=('IndexGO of 2 labels (' + ('auto-integer, map-less' if auto else 'explicit') + '); history append(a), extend([b, 55]) with a, b symbolic in a small range around the held labels (absent probe 99 fixed); '
                     f'.values read before 1st/2nd append: {read0}/{read1}' + ('; symbolic choice that the first appended label is the float 2.0' if auto else '')),
             route='IndexGO.append / extend with reads in between; every read route after every step', timeout=240)
 
@@ -153,7 +165,7 @@ def mk_derived(what):
     def body_derived(env, l0, l1, l2, k, probe):
         sf = env.sf
         labels = [l0, l1, l2]
-        idx = sf.Index(labels)
+        idx = sf.Index(env.array(labels, 'int64'))   # typed array: a plain list would add one magnitude fork per label
         if what == 'drop':
             pos = None
             for i in range(3):
@@ -270,10 +282,14 @@ _add(Cond('hierarchy_from_labels_3', [(p, 'int') for p in ('o0', 'o1', 'o2', 'i0
 
 def mk_ihgo(read, how, tier='quick'):
     def body_ihgo(env, a, b):
+        from vf import rt
+        a, b = _conc(a, 9, 11), _conc(b, 9, 11)
+        return rt.untraced(lambda: run_ihgo(env, a, b))
+
+    def run_ihgo(env, a, b):
         sf = env.sf
         tuples = [(1, 10), (1, 11), (2, 10)]
-        from vf import rt
-        g = rt.untraced(lambda: sf.IndexHierarchyGO.from_labels(list(tuples)))
+        g = sf.IndexHierarchyGO.from_labels(list(tuples))
         out, exp = [], []
         if read:
             out.append(env.obs([tuple(r) for r in g.values.tolist()])); exp.append([list(t) for t in tuples])
